@@ -12,7 +12,7 @@ structure V where
 structure S where
   versions : Array V := #[{}]
   txn : Option V := none
-  iters : Array (List (List Nat × Nat × Nat)) := #[]
+  iters : Array (List (Trie Nat)) := #[]     -- retained iterators: their stacks (lpm/iterator.go)
   deriving Inhabited
 
 def showE (es : List (List Nat × Nat × Nat)) : String :=
@@ -29,11 +29,25 @@ def parseK (d l : String) : Option (List Nat × Nat) := do
   let l ← l.toNat?
   pure (maskData d l, l)
 
-def query (kind : String) (t : Trie Nat) (d : List Nat) (l : Nat) : List (List Nat × Nat × Nat) :=
+/-- the iterator a query returns: its stack, as the code builds it -/
+def queryStack (kind : String) (t : Trie Nat) (d : List Nat) (l : Nat) : List (Trie Nat) :=
   match kind with
-  | "prefix" => preorder (prefixNode d l t 0)
-  | "lb" => lowerBound d l t 0 []
-  | _ => preorder t
+  | "prefix" => (Iter.ofStart (prefixNode d l t 0)).stack
+  | "lb" => lbStack d l t 0 []
+  | _ => (Iter.ofStart t).stack
+
+/-- draining it with the stack machine (`Iterator.All`) -/
+def query (kind : String) (t : Trie Nat) (d : List Nat) (l : Nat) : List (List Nat × Nat × Nat) :=
+  let st := queryStack kind t d l
+  Iter.drain (iterFuel st) st
+
+/-- `n` calls of `Iterator.Next` -/
+def nextN : Nat → List (Trie Nat) → List (List Nat × Nat × Nat) × List (Trie Nat)
+  | 0, st => ([], st)
+  | n + 1, st =>
+    match Iter.next (iterFuel st) st with
+    | none => ([], [])
+    | some (e, st') => let (es, st'') := nextN n st'; (e :: es, st'')
 
 def step (s : S) (ws : List String) : S × String :=
   match ws with
@@ -78,24 +92,24 @@ def step (s : S) (ws : List String) : S × String :=
   | ["abandon"] => ({ s with txn := none }, "ok")
   | ["keepiter", kind, d, l] =>
     match s.txn, parseK d l with
-    | some x, some (d, l) => ({ s with iters := s.iters.push (query kind x.t d l) }, s!"i{s.iters.size}")
+    | some x, some (d, l) => ({ s with iters := s.iters.push (queryStack kind x.t d l) }, s!"i{s.iters.size}")
     | _, _ => (s, "bad-op")
   | ["vkeepiter", v, kind, d, l] =>
     match getV s v, parseK d l with
-    | some x, some (d, l) => ({ s with iters := s.iters.push (query kind x.t d l) }, s!"i{s.iters.size}")
+    | some x, some (d, l) => ({ s with iters := s.iters.push (queryStack kind x.t d l) }, s!"i{s.iters.size}")
     | _, _ => (s, "bad-op")
   | ["iterall", i] =>
     match i.toNat? with
     | some i =>
       match s.iters[i]? with
-      | some es => (s, showE es)
+      | some st => (s, showE (Iter.drain (iterFuel st) st))
       | none => (s, "bad-op")
     | none => (s, "bad-op")
   | ["next", i, n] =>
     match i.toNat?, n.toNat? with
     | some i, some n =>
       match s.iters[i]? with
-      | some es => ({ s with iters := s.iters.set! i (es.drop n) }, showE (es.take n))
+      | some st => let (es, st') := nextN n st; ({ s with iters := s.iters.set! i st' }, showE es)
       | none => (s, "bad-op")
     | _, _ => (s, "bad-op")
   | ["vlookup", v, d, l] =>
